@@ -286,7 +286,8 @@ impl Prop for C16 {
                     if !env.mine(i) || !(o.emoticons.contains_key(tx.as_str()) || o.emojis.contains_key(word.as_str())) {
                         continue;
                     }
-                    if flip.update(off).is_err() || type_finish(&flip, tx).is_err() || flip.update(on).is_err() {
+                    let dm = [0u8, 3, 1, 4, 2][(t.flipped as usize) % 5];
+                    if flip.update_with(off, dm).is_err() || type_finish(&flip, tx).is_err() || flip.update_with(on, dm).is_err() {
                         break;
                     }
                     t.flipped += 1;
